@@ -338,7 +338,7 @@ def c13_layout_part(bad, name, sites, desc):
 
 
 C13_LAYOUT_PARTS = [
-    c13_layout_part(0, "c13_file_layouts", ("every-layout-parses", "no-definition-lost-or-duplicated", "same-schema-as-single-file"),
+    c13_layout_part(0, "c13_file_layouts", ("every-layout-parses", "no-definition-lost-or-duplicated", "same-schema-as-single-file", "every-node-carries-the-file-it-was-read-from"),
                     "the same definitions distributed over files, extensions, sub-directories and YAML documents: ParseYamlInDir finds every model file, no definition is lost or "
                     "duplicated, Validate accepts, and the embedded schema equals that of the single-file layout"),
     c13_layout_part(1, "c13_file_layouts_violation", ("violation-in-any-model-file-is-rejected",),
@@ -1106,7 +1106,7 @@ PARTS = {
                                     "tree with the same resolved primitive and inserted conversions on every node, dsl.IsIntegralType iff the resolved primitive is an integer, and the same emitted "
                                     "operator / conversion / literal forms in Python (`//` vs `/`), C++ and MATLAB")),
     ],
-    "C10": [C06_REMOVALS_PART, C09_CROSSNS_PART] + [C10_FORMS[f] for f in (0, 1, 3, 4, 5)] + [only_thorough(C10_FORMS[f]) for f in (2, 6)] + C10_SHAPES + [C10_GRAPH_PART, C10_PARSER_PART, C10_DEFUSE_PART, C10_CYCLE_SPELLINGS_PART, C10_BUDGET_PART] + C10_YAML,  # C10_GRAPH_PART: no hang / panic of the package loader for any import graph
+    "C10": [C06_REMOVALS_PART, C09_CROSSNS_PART, C13_LAYOUT_PARTS[0]] + [C10_FORMS[f] for f in (0, 1, 3, 4, 5)] + [only_thorough(C10_FORMS[f]) for f in (2, 6)] + C10_SHAPES + [C10_GRAPH_PART, C10_PARSER_PART, C10_DEFUSE_PART, C10_CYCLE_SPELLINGS_PART, C10_BUDGET_PART] + C10_YAML,  # C10_GRAPH_PART: no hang / panic of the package loader for any import graph
     "C09": [
         C09_CROSSNS_PART,
         (G, "gosym_part", dict(name="c09_base", entry="internal/zzverif.C09Base", required_sites=("base-accepted",), assumptions=C09_ASSUME,
